@@ -192,8 +192,17 @@ func (m *modelL1) stepCreate(x *ophosttypes.MsgCreateBridge, bc blockCtx) stepOu
 func (m *modelL1) stepDeposit(x *ophosttypes.MsgInitiateTokenDeposit, bc blockCtx) stepOut {
 	var p pred
 	sender, oks := validAddr(x.Sender)
-	if !oks || len(x.To) == 0 || x.BridgeId == 0 || !x.Amount.IsValid() {
+	switch {
+	case !oks || x.BridgeId == 0:
 		p.failBecause("deposit.invalid", "invalid-deposit-msg")
+	case len(x.To) == 0:
+		// the L2 would refund it with an empty sender, which the L1 can never pay out
+		p.failBecause("deposit.invalid", "invalid-deposit:empty-recipient", "C10", "C04", "C08", "C07")
+	case x.Amount.Amount.IsNil() || x.Amount.Amount.IsNegative():
+		p.failBecause("deposit.invalid", "invalid-deposit:negative-amount", "C10", "C01", "C08")
+	case !x.Amount.IsValid():
+		// (what is left is the denom) the L2 refuses to finalize a deposit whose base denom is not a denom
+		p.failBecause("deposit.invalid", "invalid-deposit:denom", "C10", "C07", "C08", "C16")
 	}
 	b := m.Bridges[x.BridgeId]
 	if b == nil && x.BridgeId != 0 {
